@@ -7,6 +7,9 @@ from vf.ref import tx_ref as R
 from vf.runner import Acc, filler
 
 PROPERTY = "C04"
+# E6: seq_ops() indices of the operations that are interrupted at every line (vf/seqexplore.interrupted); probes = the whole alphabet
+INTERRUPT_X = [0, 8]
+INTERRUPT_PROBES = None
 CONCUR_FILES = ('bits/tx.py', 'bits/utils.py', 'bits/blockchain.py')
 # (thread a, thread b), warm-up: indices into seq_ops() - the ordinary single-case checks run concurrently (vf/concur.py)
 CONCUR_SCEN = [((0, 2), ()), ((0, 0), (4,)), ((2, 4), (0,)), ((0, 8), (2,)), ((0, 2, 4), ())]   # the last one: three threads
@@ -21,6 +24,7 @@ OBLIGATIONS = {
     "concurrent_calls": "interleavings of two concurrent calls (single-case checks in two threads, cold and after warm-up calls)",
     "huge_tx": "a transaction of more than 1 000 000 / 4 000 000 bytes parsed alone and inside a block",
     "long_history": "operations executed in one long history (>= 1000 distinct operations, forward / forward / reverse)",
+    "interrupted_calls": "interruption points explored (an earlier call cut short by an asynchronous exception, then ordinary calls)",
     "history_sequences": "operation sequences (non-initial process states) explored",
     "segwit_nonfinal_sequence": "a segwit transaction with a sequence other than ffffffff",
     "trailing_byte_inside_tx": "a trailing byte that also occurs inside the transaction",
@@ -153,6 +157,9 @@ def run_case(kind, case):
     if kind == "concurcase":
         from vf import concur
         return concur.replay_cases(run_case, PROPERTY, case, CONCUR_FILES)
+    if kind == "interrupted":
+        from vf import seqexplore
+        return seqexplore.replay_interrupted(run_case, case)
     if kind == "seq":
         from vf import seqexplore
         return seqexplore.replay(run_case, case)
@@ -189,7 +196,7 @@ def jobs(tier, seed):
     nsh = 16 if tier == "quick" else 48
     from vf.runner import seq_jobs
     return [{"name": f"ids/{sh}", "part": "ids", "shard": [sh, nsh], "weight": 5} for sh in range(nsh)] + \
-        [{"name": "block", "part": "block", "weight": 2}, {"name": "huge", "part": "huge", "weight": 8}] + seq_jobs(3, weight=3) + __import__("vf.runner", fromlist=["x"]).long_jobs() + __import__("vf.runner", fromlist=["x"]).concur_jobs(len(CONCUR_SCEN) - (1 if tier == "quick" else 0))
+        [{"name": "block", "part": "block", "weight": 2}, {"name": "huge", "part": "huge", "weight": 8}] + seq_jobs(3, weight=3) + __import__("vf.runner", fromlist=["x"]).long_jobs() + __import__("vf.runner", fromlist=["x"]).interrupt_jobs(len(INTERRUPT_X)) + __import__("vf.runner", fromlist=["x"]).concur_jobs(len(CONCUR_SCEN) - (1 if tier == "quick" else 0))
 
 
 def run_job(job):
@@ -201,6 +208,11 @@ def run_job(job):
     if job["part"] == "longhist":
         from vf.runner import run_long_job, default_long_ops
         return run_long_job(job, default_long_ops(seq_ops, job), run_case)
+    if job["part"] == "interrupted":
+        from vf.runner import run_interrupt_job
+        ops = [o for o in seq_ops(dict(job, part="interrupted", shard=[0, 1]))]
+        probes = ops if INTERRUPT_PROBES is None else [ops[i] for i in INTERRUPT_PROBES]
+        return run_interrupt_job(job, [ops[i] for i in INTERRUPT_X], probes, run_case, CONCUR_FILES)
     if job["part"] == "seq":
         from vf.runner import run_seq_job
         return run_seq_job(job, seq_ops(job), run_case, depth=3 if job["tier"] == "quick" else 4)
